@@ -30,7 +30,9 @@ resource limits at their exact boundary.
       locals  LOAD_LOCAL / STORE_LOCAL of slot local_count-1 / local_count for local_count at
               1, 255..257, 65535; source programs with 254..257 lets.
       nest    value nesting depth around the printer's limit (VAL_PRINT_MAX_DEPTH) for arrays,
-              tuples, structs, unions and their rotation, printed, compared, released.
+              tuples, structs, unions and their rotation, and (never printed) hashmaps and
+              closures; then the ladder 1000, 10000, 100000 (thorough 1000000), where no limit
+              is declared: printed, compared, converted, released.
     Oracle: the run completes with the model's output, or stops with the documented error of
     that limit (result code + message) after the model's output prefix; below the limit it must
     complete.  No crash, sanitizer report, hang, other error text, broken state invariant
@@ -590,7 +592,11 @@ NEST_KINDS = {
     "tuple": ([("LOAD_LOCAL", 1), ("TUPLE_NEW", 1)], "(", ")"),
     "struct": ([("LOAD_LOCAL", 1), ("STRUCT_LITERAL", 0, 1)], "{", "}"),
     "union": ([("LOAD_LOCAL", 1), ("UNION_CONSTRUCT", 0, 2, 1)], "variant(2, ", ")"),
+    # not printed (the printer does not descend into these): built, compared, released
+    "hashmap": ([("HM_NEW", 1, 1), ("PUSH_I64", 1), ("LOAD_LOCAL", 1), ("HM_SET",)], None, None),
+    "closure": ([("LOAD_LOCAL", 1), ("CLOSURE_NEW", 0, 1)], None, None),
 }
+PRINTED_KINDS = ["array", "tuple", "struct", "union"]
 
 
 def nest_module(asm, kinds, depth, print_limit):
@@ -610,12 +616,16 @@ def nest_module(asm, kinds, depth, print_limit):
             it += NEST_KINDS[k][0] + [("STORE_LOCAL", 1)]
         it += [("LOAD_LOCAL", 0), ("PUSH_I64", 1), ("SUB",), ("DUP",), ("STORE_LOCAL", 0), ("JMP_TRUE", "L")]
         order = list(kinds) * (depth // len(kinds))
-    it += [("LOAD_LOCAL", 1), ("PRINTLN",),
-           ("LOAD_LOCAL", 1), ("LOAD_LOCAL", 1), ("EQ",), ("PRINTLN",),
+    printed = all(NEST_KINDS[k][1] is not None for k in kinds)
+    if printed:
+        it += [("LOAD_LOCAL", 1), ("PRINTLN",)]
+    it += [("LOAD_LOCAL", 1), ("LOAD_LOCAL", 1), ("EQ",), ("PRINTLN",),
            ("LOAD_LOCAL", 1), ("CAST_STRING",), ("STR_LEN",), ("PRINTLN",),
            ("PUSH_I64", 1), ("STORE_LOCAL", 1),            # releases the whole nest
            ("PUSH_STR", 1), ("PRINTLN",), ("PUSH_I64", 0), ("RET",)]
     img = asm.module([("main", 0, 2, 0, it)], ["released"])
+    if not printed:
+        return img, b"true\n0\nreleased\n"
     # model of the printer: containers past the limit print as "..."
     outer_first = order[::-1]
     s_open, s_close = "", ""
@@ -845,12 +855,14 @@ def build_cases(tree, tier, work, optable, lim):
             cases.append(Case("g_%s_%d" % (mode, idx), "globals", [globals_module(asm, idx, mode)], alts))
     # ---- nesting depth around the printer's limit
     PL = print_depth_limit(tree)
-    depths = [1, 2, PL - 2, PL - 1, PL, PL + 1, PL + 2, 3 * PL] + ([1000, 5000] if tier == "thorough" else [])
+    # ... and a ladder of depths far beyond it (no declared limit: building, comparing and releasing must still work)
+    depths = [1, 2, PL - 2, PL - 1, PL, PL + 1, PL + 2, 3 * PL, 1000, 10000, 100000] + ([1000000] if tier == "thorough" else [])
     for kind in NEST_KINDS:
         for d in depths:
             img, out = nest_module(asm, [kind], d, PL)
-            cases.append(Case("n_%s_%d" % (kind, d), "nest:" + kind, [img], [alt_ok(out)]))
-    ks = list(NEST_KINDS)
+            cases.append(Case("n_%s_%d" % (kind, d), "nest:" + kind, [img], [alt_ok(out)], tool=(d <= 100000),
+                              note="value nested %d deep" % d))
+    ks = list(PRINTED_KINDS)
     for r in range(4):
         rot = ks[r:] + ks[:r]
         for d in (PL - 4, PL, PL + 4, 4 * PL):
@@ -896,7 +908,7 @@ def build_cases(tree, tier, work, optable, lim):
 
 
 # ----------------------------------------------------------------------------- running + judging
-ASAN_ENV = {"ASAN_OPTIONS": "detect_leaks=0:allocator_may_return_null=1:max_allocation_size_mb=1024:handle_abort=1:exitcode=86",
+ASAN_ENV = {"ASAN_OPTIONS": "detect_leaks=0:allocator_may_return_null=1:max_allocation_size_mb=1024:hard_rss_limit_mb=3000:handle_abort=1:exitcode=86",
             "UBSAN_OPTIONS": "print_stacktrace=1:halt_on_error=1:exitcode=86"}
 
 
@@ -908,8 +920,8 @@ def _run_lim_chunk(args):
 
 def _run_tool(args):
     exe, path = args
-    rc, out, err = common.run([exe, path], timeout=120, envx=ASAN_ENV)
-    return (path, rc, out, err.decode(errors="replace"))
+    rc, out, err = common.run([exe, path], timeout=60, envx=ASAN_ENV)
+    return (path, rc, out[:1 << 20], err.decode(errors="replace")[:20000])
 
 
 def parse_case_lines(text):
@@ -991,10 +1003,12 @@ def judge(case, rec):
 
 
 def judge_tool(case, rc, out, err):
+    if "hard rss limit" in err or "failed to allocate" in err or rc == "timeout":
+        return ("nano_vm: hang or unbounded memory growth", "rc=%s\n%s" % (rc, err[-1500:]))
     if "ERROR: AddressSanitizer" in err or ": runtime error: " in err or rc == 86:
         return ("nano_vm: sanitizer report", err[-3000:])
-    if rc == "timeout" or (isinstance(rc, int) and rc < 0):
-        return ("nano_vm: killed rc=%s" % rc, err[-1000:])
+    if isinstance(rc, int) and rc < 0:
+        return ("nano_vm: killed by signal %d" % -rc, err[-1000:])
     why = []
     for alt in case.alts:
         if alt.get("st", "ok") == "noverify":
@@ -1055,7 +1069,10 @@ def run_limits(rep, tree, tier, work, optable):
             if i not in got:
                 raise common.HarnessError("limit probe printed nothing for case %d (%s)" % (i, cases[i].name))
             recs[i] = got[i]
-    tool_jobs = [(tree.exe("nano_vm"), os.path.join(d, "%05d_0.nvm" % i)) for i, c in enumerate(cases) if c.tool and len(c.images) == 1 and c.flags == "-"]
+    # the real nano_vm binary on every single-module case the probe run found nothing wrong with
+    judged = {i: judge(c, recs[i]) for i, c in enumerate(cases)}
+    tool_jobs = [(tree.exe("nano_vm"), os.path.join(d, "%05d_0.nvm" % i)) for i, c in enumerate(cases)
+                 if c.tool and len(c.images) == 1 and c.flags == "-" and not judged[i]]
     tool_res = {}
     for (path, rc, out, err) in common.pmap(_run_tool, tool_jobs):
         tool_res[int(os.path.basename(path)[:5])] = (rc, out, err)
@@ -1066,7 +1083,7 @@ def run_limits(rep, tree, tier, work, optable):
                 f.write("%s %s %s tool=%s\n" % (c.name, c.family, recs[i], tool_res.get(i, ("-",))[0]))
     problems = {}     # (family group, class) -> [(i, detail, how)]
     for i, c in enumerate(cases):
-        j = judge(c, recs[i])
+        j = judged[i]
         if j:
             problems.setdefault((c.family.split(":")[0], j[0]), []).append((i, j[1], "probe"))
         if i in tool_res:
@@ -1086,11 +1103,13 @@ def run_limits(rep, tree, tier, work, optable):
                 _p, rc2, out2, err2 = _run_tool((tree.exe("nano_vm"), os.path.join(d, "%05d_0.nvm" % i)))
                 j2 = judge_tool(c, rc2, out2, err2)
             again.append(j2[0] if j2 else None)
+        if again == [None, None]:
+            rep.count("limit_nonreproducible")
+            continue
+        if None in again:
+            raise common.HarnessError("limit case %s misbehaves only sometimes when replayed alone: %s vs %s" % (c.name, cls, again))
         if again != [cls, cls]:
-            if again == [None, None]:
-                rep.count("limit_nonreproducible")
-                continue
-            raise common.HarnessError("limit case %s does not replay deterministically: %s vs %s" % (c.name, cls, again))
+            detail += "\n(replayed alone twice it misbehaved again, as: %s)" % again
         files = {"case.txt": "%s\nfamily: %s\nflags: %s\nnote: %s\nobserved through: %s\nprobe line: %s\n\n%s\n" % (c.name, c.family, c.flags, c.note, how, recs[i], detail),
                  "cases.txt": "\n".join("%s (%s)" % (cases[k].name, h) for k, _d, h in items[:300]) + "\n"}
         for k, img in enumerate(c.images):
@@ -1107,13 +1126,15 @@ def run_limits(rep, tree, tier, work, optable):
         fams[c.family.split(":")[0]] = fams.get(c.family.split(":")[0], 0) + 1
     inv = {v[0]: k for k, v in optable.items()}
     name_of = {k: v[0] for k, v in optable.items()}
-    depth_err_ops, grow_ops, at_limit, completed = set(), set(), 0, 0
+    depth_err_ops, depth_err_src, grow_ops, at_limit, completed = set(), set(), set(), 0, 0
     for i, c in enumerate(cases):
         r = recs[i]
         if r.get("st") != "ok":
             continue
         if int(r["res"]) == ERR_CALL_DEPTH:
             depth_err_ops.add(name_of.get(int(r["lastop"]), r["lastop"]))
+            if c.family.startswith("depth-src"):
+                depth_err_src.add(name_of.get(int(r["lastop"]), r["lastop"]))
         if int(r["res"]) == VM_OK:
             completed += 1
         if int(r["maxframes"]) == lim["VM_MAX_FRAMES"]:
@@ -1123,13 +1144,15 @@ def run_limits(rep, tree, tier, work, optable):
                 grow_ops.add(name_of.get(int(g.split(":")[0]), g.split(":")[0]))
     cov = {"limit_cases": n, "limit_cases_by_family": fams, "limit_cases_through_nano_vm": len(tool_jobs),
            "limit_runs_completed": completed, "limit_runs_with_all_frames_in_use": at_limit,
-           "limit_depth_error_raised_by": sorted(depth_err_ops), "limit_stack_realloc_inside": sorted(grow_ops),
+           "limit_depth_error_raised_by": sorted(depth_err_ops), "limit_depth_error_raised_by_compiled_programs": sorted(depth_err_src), "limit_stack_realloc_inside": sorted(grow_ops),
            "limit_values": lim, "limit_problem_classes": len(problems)}
     cov.update({"limit_" + k: v for k, v in info.items()})
     if not problems:
         need_depth = {"CALL", "CALL_INDIRECT", "CLOSURE_CALL", "CALL_MODULE"}
         if not need_depth <= depth_err_ops:
             raise common.HarnessError("vacuous limit family: depth error never raised by %s" % sorted(need_depth - depth_err_ops))
+        if not {"CALL", "CALL_INDIRECT"} <= depth_err_src:
+            raise common.HarnessError("vacuous limit family: compiled programs raised the depth error only through %s" % sorted(depth_err_src))
         need_grow = {"PUSH_I64", "PUSH_F64", "PUSH_BOOL", "PUSH_STR", "PUSH_VOID", "PUSH_U8", "DUP", "LOAD_LOCAL", "LOAD_GLOBAL", "LOAD_UPVALUE",
                      "ARR_NEW", "HM_NEW", "STRUCT_NEW", "ARR_LITERAL", "STRUCT_LITERAL", "UNION_CONSTRUCT", "ENUM_VAL", "TUPLE_NEW", "OPAQUE_NULL",
                      "CLOSURE_NEW", "ARR_POP", "CALL", "CALL_INDIRECT", "CLOSURE_CALL", "CALL_MODULE", "RET"}
